@@ -47,7 +47,8 @@ class Ob:
 
 def env():
     e = dict(os.environ)
-    e['PYTHONPATH'] = ROOT
+    # VF_REPO (development aid, never used by the registered commands): analyse another checkout than the installed /repo
+    e['PYTHONPATH'] = ROOT + (os.pathsep + os.environ['VF_REPO'] if os.environ.get('VF_REPO') else '')
     e['PYTHONDONTWRITEBYTECODE'] = '1'
     e['PYTHONHASHSEED'] = '0'
     return e
